@@ -504,6 +504,10 @@ def validate_cases(rep, prop, events, case_index, sig):
         evs = [e for e in evs if e["scn"] not in drop]
         if not evs:
             break
+        if sum(seen.values()) >= 25:
+            # the verdict is reached: the remaining cases are not examined one validation run at a time
+            rep.violation("%s more than 25 cases rejected, %d cases left unexamined" % (prop, len(evs)), {"classes": seen})
+            break
     else:
         rep.violation("%s more than 400 distinct rejected classes" % prop, {})
     rep.cov["rejected_classes"] = seen
